@@ -402,7 +402,10 @@ pub fn gen(r: &mut Rng, cases: usize, size: usize, extra: &[String], out: &mut O
     }
     for case in 0..cases {
         out.line(&format!("case adf-{profile}-{case}"));
-        let (n, acs): (usize, Vec<F>) = if profile == "presentwide" {
+        let (n, acs): (usize, Vec<F>) = if profile == "cliwide" {
+            let n = r.range(65.min(maxn), maxn);
+            (n, gen_wide(r, n))
+        } else if profile == "presentwide" {
             let n = r.range(65.min(maxn), maxn);
             (n, gen_wide(r, n))
         } else if profile == "wideund" {
@@ -560,11 +563,11 @@ pub fn gen(r: &mut Rng, cases: usize, size: usize, extra: &[String], out: &mut O
                 }
                 out.line("adump native");
             }
-            "cli" => {
+            "cli" | "cliwide" => {
                 let modes = ["naive", "biodivine", "hybrid"];
                 let all_flags = ["grd", "com", "stm", "stmpre", "stmrew", "stmrew2", "stmca", "stmcb", "stmng", "twoval"];
                 let heus = ["-", "Simple", "MinModMinPathsMaxVarImp", "MinModMaxVarImpMinPaths"];
-                for k in 0..6 {
+                for k in (if profile == "cli" { 0..6 } else { 2..5 }) {
                     let mut perm: Vec<usize> = (0..2 * n).collect();
                     for i in (1..perm.len()).rev() {
                         perm.swap(i, r.usize(i + 1));
@@ -585,6 +588,9 @@ pub fn gen(r: &mut Rng, cases: usize, size: usize, extra: &[String], out: &mut O
                         r.below(1 << 30),
                         r.below(1 << 30)
                     ));
+                }
+                if profile == "cliwide" {
+                    continue;
                 }
                 out.line(&format!("clibad {} {} {}", modes[r.usize(3)], r.usize(6), r.below(1 << 30)));
                 out.line(&format!("clicount {}", ["naive", "hybrid"][r.usize(2)]));
